@@ -25,6 +25,24 @@ trait HP: Prefix + Clone + PartialEq + std::fmt::Debug {
     fn netraw(&self) -> u128 {
         self.mask().to_u128().unwrap()
     }
+    /// serialize + deserialize (serde_json) and compare with the original
+    fn serde_map(_m: &PrefixMap<Self, i64>) -> String {
+        "bad-op".into()
+    }
+    fn serde_set(_s: &PrefixSet<Self>) -> String {
+        "bad-op".into()
+    }
+}
+
+fn serde_rt<T: serde::Serialize + serde::de::DeserializeOwned + PartialEq>(x: &T) -> String {
+    let s = match serde_json::to_string(x) {
+        Ok(s) => s,
+        Err(e) => return format!("ser-error:{}", e),
+    };
+    match serde_json::from_str::<T>(&s) {
+        Ok(y) => fb(y == *x),
+        Err(e) => format!("de-error:{}", e),
+    }
 }
 
 macro_rules! hp_tuple {
@@ -33,6 +51,9 @@ macro_rules! hp_tuple {
             const W: u32 = $w;
             fn mk(repr: u128, len: u8) -> Self {
                 (repr as $t, len)
+            }
+            fn serde_set(s: &PrefixSet<Self>) -> String {
+                serde_rt(s)
             }
         }
     };
@@ -54,8 +75,24 @@ macro_rules! hp_from {
         }
     };
 }
-hp_from!(ipnet::Ipv4Net, 32, u32);
-hp_from!(ipnet::Ipv6Net, 128, u128);
+macro_rules! hp_ipnet {
+    ($t:ty, $w:expr, $r:ty) => {
+        impl HP for $t {
+            const W: u32 = $w;
+            fn mk(repr: u128, len: u8) -> Self {
+                <$t as Prefix>::from_repr_len(repr as $r, len)
+            }
+            fn serde_map(m: &PrefixMap<Self, i64>) -> String {
+                serde_rt(m)
+            }
+            fn serde_set(s: &PrefixSet<Self>) -> String {
+                serde_rt(s)
+            }
+        }
+    };
+}
+hp_ipnet!(ipnet::Ipv4Net, 32, u32);
+hp_ipnet!(ipnet::Ipv6Net, 128, u128);
 hp_from!(ipnetwork::Ipv4Network, 32, u32);
 hp_from!(ipnetwork::Ipv6Network, 128, u128);
 hp_from!(cidr::Ipv4Cidr, 32, u32);
@@ -344,11 +381,12 @@ fn nav<'a, P: HP, T: HV>(mut v: TrieView<'a, P, T>, steps: &[VStep<P>]) -> Resul
 
 fn nav_mut<'a, P: HP, T: HV>(mut v: TrieViewMut<'a, P, T>, steps: &[VStep<P>]) -> Result<TrieViewMut<'a, P, T>, String> {
     for (i, s) in steps.iter().enumerate() {
+        let cur = fnet(v.prefix());
         let next = match s {
             VStep::At(q) => match v.view_mut_at(q.clone()) {
                 Some(n) => Ok(n),
-                // `view_mut_at` drops the view on failure: nothing to hand back
-                None => return Err(format!("fail@{};back=dropped", i)),
+                // `view_mut_at` drops the view on failure: report the prefix it had
+                None => return Err(format!("fail@{};back={}", i, cur)),
             },
             VStep::Find(q) => v.find(q.clone()),
             VStep::Exact(q) => v.find_exact(q),
@@ -1024,6 +1062,19 @@ fn map_op<P: HP>(m: &mut PrefixMap<P, i64>, op: &str, a: &[&str]) -> String {
             list_or_diverge(out, dv)
         }
         ("shape", []) => shape(Some((&*m).view()), P::W + 3),
+        ("shape_fresh", []) => {
+            let fwd: PrefixMap<P, i64> = m.iter().map(|(p, v)| (p.clone(), *v)).collect();
+            let mut items: Vec<(P, i64)> = m.iter().map(|(p, v)| (p.clone(), *v)).collect();
+            items.reverse();
+            let bwd: PrefixMap<P, i64> = items.into_iter().collect();
+            let s0 = shape(Some((&*m).view()), P::W + 3);
+            if shape(Some((&fwd).view()), P::W + 3) == s0 && shape(Some((&bwd).view()), P::W + 3) == s0 {
+                "same".into()
+            } else {
+                "differ".into()
+            }
+        }
+        ("serde", []) => P::serde_map(m),
         ("snap", []) => snap(m.verif_snapshot()),
         _ => "bad-op".into(),
     }
@@ -1161,6 +1212,19 @@ fn set_op<P: HP>(s: &mut PrefixSet<P>, op: &str, a: &[&str]) -> String {
             list_or_diverge(xs.into_iter().map(|p| fpv(p, &())).collect(), d)
         }
         ("shape", []) => shape(Some((&*s).view()), P::W + 3),
+        ("shape_fresh", []) => {
+            let fwd: PrefixSet<P> = s.iter().cloned().collect();
+            let mut items: Vec<P> = s.iter().cloned().collect();
+            items.reverse();
+            let bwd: PrefixSet<P> = items.into_iter().collect();
+            let s0 = shape(Some((&*s).view()), P::W + 3);
+            if shape(Some((&fwd).view()), P::W + 3) == s0 && shape(Some((&bwd).view()), P::W + 3) == s0 {
+                "same".into()
+            } else {
+                "differ".into()
+            }
+        }
+        ("serde", []) => P::serde_set(s),
         ("snap", []) => snap(s.verif_snapshot()),
         _ => "bad-op".into(),
     }
